@@ -85,4 +85,10 @@ CHECKS["C14"] = {
     "note": "Trusted: first-output bookkeeping in the driver. User callbacks are not registered in this family (excluded by the statement).",
     "technique": MBT,
 }
+CHECKS["C15"] = {
+    "level": "fault_enumeration",
+    "text": "A render is modelled as a sequence of Write calls with a checked/unchecked flag per write site and a scripted destination (fails from k, only at k, partial at k); TLC checks on the implementation-shaped write sequences of the text, CSV, JSON and Markdown emitters over all small tables that every (k, mode) ends in an error with a prefix accepted; on the real library every small table of the bounded models and random tables are rendered by every renderer once fault-free (counting writer: m calls, reference bytes) and then for every k in 1..m x 3 modes under recover; TLC validates for every fault run: error non-nil, no panic, accepted bytes a prefix.",
+    "note": "Trusted: the scripted writer and bytes.HasPrefix in the driver. Fault points are enumerated completely per table; tables are bounded/sampled. HTML's write granularity is html/template's and is enumerated as observed.",
+    "technique": "TLA+ writer-fault model + exhaustive fault-point enumeration on the real renderers, validated by TLC",
+}
 NOT_APPLICABLE = {}
